@@ -126,10 +126,10 @@ structure Variant where
   /-- before 4bee69d: equal ids were taken for equal types even below different enclosing types
   (their back-references then mean different things) -/
   equalIdsIgnoreContext : Bool := false
-  /-- PROPOSED, not in the code (notes/C09-fixes/06; the only flag that is not a historical rule): a
-  resolved `Cycle` continues below the enclosing types of its target instead of keeping the stack of
-  the place where the back-reference stood (R6). Used by the drivers to name the mechanism of R6. -/
-  cycleDropsInnerStack : Bool := false
+  /-- before ecfc5db: a resolved `Cycle` went on with the whole stack of the place where the
+  back-reference stood; its target was then "already on the stack", not pushed again, and the `Cycle`s
+  inside it were counted from the entries between the reference and the target (R6) -/
+  cycleKeepsInnerStack : Bool := false
   deriving DecidableEq, Repr, Inhabited
 
 /-- The two stacks of enclosing boundary types (each top first): `l` for the left (self) type, `r`
@@ -159,13 +159,12 @@ def restoreOnFail (vr : Variant) (snapshot : Asm) : Res → Res
 
 abbrev Rec := Asm → Stk → Nat → Nat → Res
 
-/-- the stacks with which a resolved `Cycle d` goes on: unchanged in the code as it is; with
-`cycleDropsInnerStack` the `d` entries down to and including the target are dropped from the stack it
-was resolved on (the target pushes itself again) -/
+/-- the stacks with which a resolved `Cycle d` goes on: the `d` entries down to and including the
+target are set aside on the stack it was resolved on (`split_off(lookup_index)`, fix ecfc5db; the target
+pushes itself again) — the discipline `inhB` has (`st.drop d`). Before the fix: unchanged. -/
 def Stk.resolved (vr : Variant) (onRight : Bool) (st : Stk) (d : Nat) : Stk :=
-  if vr.cycleDropsInnerStack then
-    (if onRight then { st with r := st.r.drop d } else { st with l := st.l.drop d })
-  else st
+  if vr.cycleKeepsInnerStack then st
+  else (if onRight then { st with r := st.r.drop d } else { st with l := st.l.drop d })
 
 /-- `(Type::Cycle(depth), _)`: resolve on the stack, else `true` ("coinductive reasoning"). -/
 def cycleLeft (vr : Variant) (rec : Rec) (asm : Asm) (st : Stk) (d b : Nat) : Res :=
